@@ -422,6 +422,8 @@ class DecimalFieldFormat(AbstractFieldFormat):
             # TODO: limit exception handler to decimal exception or whatever decimal.Decimal raises.
             message = "value is %r but must be a decimal number: %s" % (value, error)
             raise errors.FieldValueError(message)
+        if not result.is_finite():
+            raise errors.FieldValueError("value is %r but must be a finite decimal number" % value)
 
         try:
             self.valid_range.validate(self._field_name, result)
